@@ -84,6 +84,12 @@ def seed_target(root):
     src = os.path.join(CACHE, "kani-target")
     if os.path.isdir(src):
         subprocess.call(["cp", "-a", src, tgt])
+        # never reuse artifacts of /repo's crates or of the harness crate: the encoding is
+        # regenerated from the current sources on every run; only third-party crates are cached
+        for pat in ("kani/*/debug/build/pilota*", "kani/*/debug/build/hk", "kani/*/debug/incremental/pilota*",
+                    "kani/*/debug/incremental/hk*"):
+            for d in glob.glob(os.path.join(tgt, pat)):
+                shutil.rmtree(d, ignore_errors=True)
     return tgt
 
 
